@@ -332,11 +332,41 @@ class Engine(Interp):
                 cv = None
             if cv is not None:
                 cur0 = (args[0][2], cv[1], cv[2], cv[3])
+        own0 = None
+        if getattr(self, 'track_ownnext', False) and body.name == 'next' and body.impl \
+                and body.impl.get('trait') == ITER_TRAIT and args and args[0][0] == 'ref' and args[0][2][0] in ('L', 'O') \
+                and len(self.chain) == 2:
+            # Debug of a lazy iterator written as a loop over a copy of itself: each step of that copy through the
+            # crate's own next() is put into the path log (is the copy faithful? what did the step yield?)
+            same = None
+            try:
+                ent = getattr(self, 'root_entry', None)
+                v = self.load(st, args[0][2], quiet=True)
+                v0 = ent[0][0] if ent and ent[0] else None
+                d = 0
+                while v0 is not None and v0[0] == 'ref' and d < 4:
+                    v0 = self.load(ent[1], v0[2], quiet=True)
+                    d += 1
+                from .specs import val_eq_z
+                same = bool(v0 is not None and val_eq_z(st.zone, v, v0))
+            except Exception:
+                same = None
+            own0 = args[0][2]
+            st.log('own-next', own0, same)
+            if not any(n[0] == 'own-first' and n[1] == own0 for n in st.notes):
+                # (kept in the state, not in the log: the log of a path is exact only behind its last loop head)
+                st.notes = st.notes + (('own-first', own0, same),)
         try:
             results = self.run_cfg(st, body, fid)
         finally:
             self.chain.pop()
             self.cur_span = saved_span
+        if own0 is not None:
+            for kind, s, v in results:
+                if kind == 'ret' and isinstance(v, tuple) and v and v[0] == 'adt' and v[1] == OPTION:
+                    s.log('own-yield', own0, self.rtag(s, v[3][0]) if v[2] == 1 else None)
+                    if v[2] == 1:
+                        self.ghost_bump(s, ('ownyield',))
         if cur0 is not None:
             for kind, s, v in results:
                 if kind != 'ret' or not (isinstance(v, tuple) and v and v[0] == 'adt' and v[1] == OPTION):
@@ -859,6 +889,11 @@ class Engine(Interp):
         self.stats['user_calls'] += 1
         if getattr(self, 'track_fmt', False) and rtags and callee['def'].startswith('core::fmt::') and callee['def'].endswith('::fmt'):
             self.fmt_note(st, rtags[0])      # the element's own Display / Debug code is called directly
+        if getattr(self, 'track_ser', False) and callee['def'].rsplit('::', 1)[-1] in (
+                'serialize_entry', 'serialize_element', 'serialize_key', 'serialize_value'):
+            # (C20) which stored elements reach the serializer: the same run-of-slots bookkeeping as for rendering
+            for rt in rtags[1:]:
+                self.fmt_note(st, rt)
         if callee.get('trait') in FN_TRAITS:
             self.note_asked(st, args[1:])
             if getattr(self, 'track_adv', False):
@@ -895,6 +930,8 @@ class Engine(Interp):
     def fmt_note(self, st, tag):
         """a value is handed to the formatter (roots whose rendering is tracked, C19): when it is (part of) a stored
         element, the run of rendered slots and the per-projection counters in the abstract state are updated"""
+        if getattr(self, 'track_ownnext', False):
+            self.ghost_bump(st, ('ownfmt',))       # (counted against the items the stepped copy yielded)
         if not getattr(self, 'track_fmt', False):
             return
         found = []
